@@ -437,6 +437,43 @@ func g17StaleArgTypes(r *Repo, rep *Report) {
 			return true
 		})
 	}
+	// the types a call is registered with are the call site's: nothing on the way from newCall to the argument types may look
+	// the called function up (Uses/Defs/ObjectOf) and read its declared signature — for a previously derived function that is
+	// the previous output's signature
+	for _, k := range []string{"derive.newCall", "derive.getInputTypes"} {
+		seen2 := map[*types.Func]bool{}
+		var q []*FuncInfo
+		if fi := r.lookup(k); fi != nil {
+			q = append(q, fi)
+			seen2[fi.Fn] = true
+		}
+		for len(q) > 0 {
+			fi := q[0]
+			q = q[1:]
+			info := fi.Pkg.TypesInfo
+			ast.Inspect(fi.Decl.Body, func(m ast.Node) bool {
+				switch x := m.(type) {
+				case *ast.IndexExpr:
+					if sel, ok := x.X.(*ast.SelectorExpr); ok && (sel.Sel.Name == "Uses" || sel.Sel.Name == "Defs") {
+						rep.fail(Finding{Rule: "G17", Key: "G17|arg-types-from-declaration|" + funcKey(fi.Fn), Where: []string{r.pos(x.Pos())},
+							Msg: funcKey(fi.Fn) + " looks an identifier up in the type checker's " + sel.Sel.Name + " map while computing the argument types of a call: if that is the called function, its parameter types come from the existing derived.gen.go, so a retyped argument that is still assignable to the old parameter keeps the old signature alive (the output differs from the one generated from scratch)"})
+					}
+				case *ast.CallExpr:
+					if sel, ok := x.Fun.(*ast.SelectorExpr); ok && (sel.Sel.Name == "ObjectOf" || sel.Sel.Name == "Lookup") {
+						rep.fail(Finding{Rule: "G17", Key: "G17|arg-types-from-declaration|" + funcKey(fi.Fn), Where: []string{r.pos(x.Pos())},
+							Msg: funcKey(fi.Fn) + " resolves an identifier (" + sel.Sel.Name + ") while computing the argument types of a call: argument types must come from the argument expressions only, never from the declaration of the called function, which for a derived function is the previous output"})
+					}
+					if fn, ok := callee(info, x).(*types.Func); ok && !seen2[fn] {
+						if cfi := r.Decls[fn]; cfi != nil && cfi.Decl.Body != nil && cfi.Pkg.Name == "derive" {
+							seen2[fn] = true
+							q = append(q, cfi)
+						}
+					}
+				}
+				return true
+			})
+		}
+	}
 	rep.analysed("arg_type_functions", n)
 	if consults != "" {
 		rep.pass("G17")
